@@ -14,7 +14,10 @@ EXPLANATION = (
     "handler; every store keyed by a wire-controlled circuit id is dominated by `id not in T` for all three tables "
     "(checks against time-limited request caches do not count); data delivery is dominated by the origin/neighbour "
     "test; the exit socket's return path uses its own circuit id and hop; CellPayload.unwrap injects the header's "
-    "circuit id; closed list of functions that write the tables. Interleavings of concurrent circuits are not explored."
+    "circuit id; closed list of functions that write the tables and of "
+    "functions that call remove_* (new private helpers of a listed function and super() overrides inherit the permission); nothing "
+    "reachable from on_create removes an entry; no except-handler that can receive CryptoException (class hierarchy) leads to a "
+    "remove_* call. Interleavings of concurrent circuits are not explored."
 )
 
 TC = "ipv8/messaging/anonymization/community.py"
@@ -37,11 +40,15 @@ def rule_destroy(ctx: Ctx) -> None:
         return norm(resolve(fi, e)) == f"{payload}.circuit_id"
 
     def relay_get_of(e, inner_pred) -> bool:
-        """e resolves to self.relay_from_to.get(K) (possibly `... if X else None`) with inner_pred(K)."""
-        e = resolve(fi, e)
-        if isinstance(e, ast.IfExp):
-            e = strip_cast(e.body)
-        return isinstance(e, ast.Call) and chain(e.func) == "self.relay_from_to.get" and e.args and inner_pred(e.args[0])
+        """
+        Every value e can hold where it is dereferenced is self.relay_from_to.get(K) with inner_pred(K).
+        All definitions of a local are followed (conditional expression or `x = None; if c: x = T.get(k)`); the None
+        alternative is dropped because every use site dereferences e (`e.hop.peer` in a comparison that held,
+        `e.circuit_id` as an evaluated argument), which raises on None before any removal can happen.
+        """
+        alts = [a for a in _alternatives(fi, e) if not (isinstance(a, ast.Constant) and a.value is None)]
+        return bool(alts) and all(isinstance(a, ast.Call) and chain(a.func) == "self.relay_from_to.get" and len(a.args) == 1
+                                  and not a.keywords and inner_pred(a.args[0]) for a in alts)
 
     removes = [c for c in calls(fi) if call_name(c) in ("remove_relay", "remove_exit_socket", "remove_circuit")]
     ctx.floor("destroy-authorised", len(removes), 4)
@@ -62,11 +69,12 @@ def rule_destroy(ctx: Ctx) -> None:
                     if ps and es:
                         entry = es[0].value.value
                         def inner(k):
-                            k = strip_cast(k)
+                            k = resolve(fi, k)
                             return isinstance(k, ast.Attribute) and k.attr == "circuit_id" and relay_get_of(k.value, is_cid)
                         if relay_get_of(entry, inner):
                             ok = True
             # which id is removed: the destroyed id itself or the other direction of the same relay pair
+            target = resolve(fi, target)
             t_ok = is_cid(target) or (isinstance(target, ast.Attribute) and target.attr == "circuit_id"
                                       and relay_get_of(target.value, is_cid))
             ok = ok and t_ok
@@ -90,6 +98,20 @@ def rule_destroy(ctx: Ctx) -> None:
         ctx.check(ok, "destroy-authorised", fi, c, f"{kind}({norm(target)}) authorised by the adjacent peer of that entry",
                   "a destroy message can remove a circuit/relay/exit entry without being signed by the adjacent node: " + why,
                   [str(f) for f in facts])
+
+
+def _alternatives(fi: FuncInfo, e: ast.AST, depth: int = 4) -> list[ast.AST]:
+    """All expressions a value may come from: every definition of a local (flow-insensitive), both arms of `a if c else b`."""
+    e = strip_cast(e)
+    if depth <= 0:
+        return [e]
+    if isinstance(e, ast.IfExp):
+        return _alternatives(fi, e.body, depth - 1) + _alternatives(fi, e.orelse, depth - 1)
+    if isinstance(e, ast.Name) and e.id not in fi.params():
+        defs = local_defs(fi, e.id)
+        if defs and all(v is not None and idx is None for _, v, idx in defs):
+            return [a for _, v, _ in defs for a in _alternatives(fi, v, depth - 1)]
+    return [e]
 
 
 def _table_of(chain_str: str | None) -> str | None:
@@ -320,12 +342,254 @@ def rule_authenticated_accounting(ctx: Ctx) -> None:
                       "through another circuit's socket")
 
 
+PKG = "ipv8/messaging/anonymization/"
+REMOVERS = ("remove_circuit", "remove_relay", "remove_exit_socket")
+# Reviewed call sites of remove_*: local API / timers / unload (not driven by a cell), and the cell handlers whose
+# removal is tied to the entry the cell itself belongs to.
+REMOVE_CALLERS = {
+    "TunnelEndpoint.speed_test_new_circuit": "REST: removes the circuit it created itself",
+    "IPRequestCache.on_timeout": "timer: our own pending circuit",
+    "RPRequestCache.on_timeout": "timer: our own pending circuit",
+    "RetryRequestCache.on_timeout": "timer: our own pending circuit",
+    "TunnelCommunity.unload": "shutdown",
+    "TunnelCommunity.do_remove": "periodic maintenance (inactive / old / over the traffic limit)",
+    "TunnelCommunity.send_extend": "our own circuit that cannot be extended",
+    "TunnelCommunity._ours_on_created_extended": "our own circuit, malformed handshake reply matched by request identifier",
+    "TunnelCommunity.on_created": "exit entry of the request's own circuit is converted into a relay pair",
+    "TunnelCommunity.on_destroy": "checked by destroy-authorised",
+    "HiddenTunnelCommunity.leave_swarm": "local API",
+    "HiddenTunnelCommunity.on_link_e2e": "the two exit entries being linked, both looked up from the cell / cookie",
+}
+# reviewed private helpers: when one has been inlined (no longer exists) its reviewed callers inherit the permission
+REMOVE_HELPER_CALLERS = {
+    "TunnelCommunity._ours_on_created_extended": ("TunnelCommunity.on_created", "TunnelCommunity.on_extended"),
+    "TunnelCommunity.do_remove": ("TunnelCommunity.do_circuits",),
+}
+
+
+def _pkg_functions(repo):
+    return [fi for fi in repo.all_functions() if fi.module.relpath.startswith(PKG)]
+
+
+def _callers_within(repo, fi: FuncInfo) -> list[FuncInfo | None]:
+    """Functions that call (or reference as a callback) fi by name; None for a module-level / unknown site."""
+    out = []
+    for _m, caller, _c in repo.callers_of_name(fi.name):
+        out.append(caller)
+    for _m, user, a in repo.attribute_uses(fi.name):
+        if isinstance(a.ctx, ast.Load) and not (isinstance(getattr(a, "_parent", None), ast.Call) and a._parent.func is a):
+            out.append(user)        # passed around as a value (callback): caller unknown -> the using function stands for it
+    return out
+
+
+def rule_removers(ctx: Ctx) -> None:
+    """Closed set of functions that may call remove_circuit / remove_relay / remove_exit_socket."""
+    repo = ctx.repo
+    allowed = set(REMOVE_CALLERS)
+    existing = {fi.qualname for fi in repo.all_functions()}
+    for helper, callers in REMOVE_HELPER_CALLERS.items():
+        if helper not in existing:
+            allowed.update(callers)
+    by_q: dict[str, list[FuncInfo]] = {}
+    for fi in repo.all_functions():
+        by_q.setdefault(fi.qualname, []).append(fi)
+
+    def permitted(fi: FuncInfo | None, seen: frozenset = frozenset()) -> bool:
+        if fi is None:
+            return False
+        q = fi.qualname
+        if q in allowed:
+            return True
+        if fi.name in REMOVERS and any(isinstance(n, ast.Call) and isinstance(n.func, ast.Attribute) and n.func.attr == fi.name
+                                       and isinstance(n.func.value, ast.Call) and chain(n.func.value.func) == "super"
+                                       for n in walk_no_nested(fi.node)):
+            return True             # override that delegates to super().remove_*: same operation
+        # a private helper every use of which lies in a permitted function
+        if not fi.name.startswith("_") or fi.name.startswith("__") or q in seen:
+            return False
+        users = _callers_within(repo, fi)
+        return bool(users) and all(permitted(u, seen | {q}) for u in users)
+
+    n = 0
+    for name in REMOVERS:
+        for _m, fi, c in repo.callers_of_name(name):
+            n += 1
+            where = fi if fi is not None else _m.relpath
+            ctx.check(permitted(fi), "table-removers", where, c,
+                      f"{name} called from reviewed function {fi.qualname if fi else '<module>'}",
+                      f"{fi.qualname if fi else 'module-level code'} calls {name} but is not one of the reviewed places that may "
+                      f"remove a circuit/relay/exit entry: an entry disappears for a reason other than an authorised destroy, "
+                      f"its own timers/limits, or an action of its owner")
+    ctx.floor("table-removers", n, 20)
+
+    # opening a circuit changes nothing about existing circuits: nothing reachable from on_create removes an entry
+    tc = repo.cls("TunnelCommunity", TC)
+    starts = []
+    for c in [tc, *tc.all_subclasses()]:
+        m = c.methods.get("on_create")
+        if m is not None:
+            starts.append(m)
+    ctx.anchor(starts, "TunnelCommunity.on_create")
+    seen: dict[int, tuple[FuncInfo, FuncInfo | None]] = {}
+    todo: list[tuple[FuncInfo, FuncInfo | None]] = [(s, None) for s in starts]
+    while todo:
+        fi, par = todo.pop()
+        if id(fi.node) in seen:
+            continue
+        seen[id(fi.node)] = (fi, par)
+        for c in calls(fi, nested=True):
+            for t in repo.resolve_call(fi, c):
+                if isinstance(t, FuncInfo) and t.module.relpath.startswith(PKG) and t.name not in REMOVERS:
+                    todo.append((t, fi))
+    reached = {fi.qualname for fi, _ in seen.values()}
+    ctx.check({"TunnelCommunity.should_join_circuit", "TunnelCommunity.join_circuit"} <= reached or len(reached) >= 3,
+              "create-changes-nothing", starts[0], starts[0].node, "call graph below on_create resolved (admission test and join reached)",
+              "undecided: the calls made by on_create could not be resolved")
+    for fi, par in seen.values():
+        path = [fi.qualname]
+        p = par
+        while p is not None and len(path) < 8:
+            path.append(p.qualname)
+            p = seen[id(p.node)][1]
+        via = " <- ".join(path)
+        bad = [c for c in calls(fi, nested=True) if call_name(c) in REMOVERS]
+        for c in calls(fi, nested=True):
+            ch = chain(c.func) or ""
+            if call_name(c) in ("pop", "clear", "popitem") and any(ch.startswith(p + ".") for p in (*TABLES.values(), "self.relays")):
+                bad.append(c)
+        for st in ast.walk(fi.node):
+            if isinstance(st, ast.Delete) and any(_table_of(chain(t)) for t in st.targets):
+                bad.append(st)
+        ctx.check(not bad, "create-changes-nothing", fi, bad[0] if bad else fi.node,
+                  f"{fi.qualname} (reached from on_create) removes no circuit/relay/exit entry",
+                  f"handling a CREATE cell - plaintext, for a circuit id nobody holds keys for - removes an existing entry "
+                  f"(`{norm(bad[0])[:70] if bad else ''}`, reached via {via}): a third party can tear down other peers' circuits by asking to open new ones")
+
+
+def _builtin_exc_ancestors(names) -> set[str]:
+    import builtins
+    out = set()
+    for n in names:
+        k = getattr(builtins, n, None)
+        if isinstance(k, type) and issubclass(k, BaseException):
+            out.update(b.__name__ for b in k.__mro__ if b is not object)
+    return out
+
+
+def rule_auth_failure_inert(ctx: Ctx) -> None:
+    """
+    A cell that fails authentication (CryptoException: wrong handshake authenticator, undecryptable cell) must be
+    dropped without touching the tables: no except-handler that can receive a CryptoException leads to remove_*.
+    """
+    repo = ctx.repo
+    ce = repo.cls("CryptoException", "ipv8/messaging/anonymization/crypto.py")
+    caught_names = {c.name for c in ce.mro()} | set(ce.all_base_names())
+    caught_names |= _builtin_exc_ancestors(caught_names)
+    caught_names |= {"Exception", "BaseException"}      # every exception class is caught by these
+
+    def catches_ce(h: ast.ExceptHandler) -> bool:
+        if h.type is None:
+            return True
+        for e in (h.type.elts if isinstance(h.type, ast.Tuple) else [h.type]):
+            c = chain(e)
+            if c is None:
+                return True             # computed exception class: assume it may match
+            if c.rsplit(".", 1)[-1] in caught_names:
+                return True
+        return False
+
+    def swallowed(fi: FuncInfo, node: ast.AST) -> bool:
+        """node lies in the body of a try (inside fi) one of whose handlers catches CryptoException and does not re-raise."""
+        from ..model import ancestors
+        child = node
+        for a in ancestors(node):
+            if a is fi.node:
+                break
+            if isinstance(a, ast.Try) and any(child is s for s in a.body):
+                hs = [h for h in a.handlers if catches_ce(h)]
+                if hs and not any(isinstance(x, ast.Raise) for x in walk_no_nested(hs[0])):
+                    return True
+            child = a
+        return False
+
+    def raises_ce_directly(fi: FuncInfo, r: ast.Raise) -> bool:
+        e = r.exc
+        if isinstance(e, ast.Call):
+            e = e.func
+        c = chain(e) if e is not None else None
+        return c is not None and c.rsplit(".", 1)[-1] in {k.name for k in [ce, *ce.all_subclasses()]}
+
+    funcs = _pkg_functions(repo)
+    raisers: set[str] = set()           # names of functions out of which a CryptoException may propagate
+    changed = True
+    while changed:
+        changed = False
+        for fi in funcs:
+            if fi.name in raisers:
+                continue
+            hit = False
+            for n in walk_no_nested(fi.node):
+                if isinstance(n, ast.Raise) and raises_ce_directly(fi, n) and not swallowed(fi, n):
+                    hit = True
+                elif isinstance(n, ast.Call) and call_name(n) in raisers and not swallowed(fi, n):
+                    hit = True
+                if hit:
+                    break
+            if hit:
+                raisers.add(fi.name)
+                changed = True
+    ctx.anchor("verify_and_generate_shared_secret" in raisers, "verify_and_generate_shared_secret raises CryptoException on a wrong authenticator")
+
+    n = 0
+    for fi in funcs:
+        tries = [t for t in walk_no_nested(fi.node) if isinstance(t, ast.Try) and t.handlers]
+        if not tries:
+            continue
+        removals = [c for c in calls(fi) if call_name(c) in REMOVERS]
+        for t in tries:
+            body_nodes = [x for s in t.body for x in walk_no_nested(s)]
+            src = [x for x in body_nodes if (isinstance(x, ast.Call) and call_name(x) in raisers)
+                   or (isinstance(x, ast.Raise) and raises_ce_directly(fi, x))]
+            if not src:
+                continue
+            cfg = ctx.cfg(fi)
+            for h in t.handlers:
+                if not catches_ce(h):
+                    ctx.instance("auth-failure-inert", fi.where, f"`{norm(h.type)}` handler around `{norm(src[0])[:50]}` cannot receive CryptoException",
+                                 line=h.lineno)
+                    n += 1
+                    continue
+                n += 1
+                hn = [x for x in cfg.by_ast.get(id(h), []) if x.kind == "handler"]
+                without = cfg.reach(cut_nodes=hn)
+                everything = cfg.reach()
+                only_via = [c for c in removals
+                            if any(x in everything and x not in without for x in cfg.nodes_for(c))]
+                # removal hidden in a callee invoked only from the handler
+                for c in calls(fi):
+                    if call_name(c) in REMOVERS or not any(x in everything and x not in without for x in cfg.nodes_for(c)):
+                        continue
+                    for tgt in repo.resolve_call(fi, c):
+                        if isinstance(tgt, FuncInfo) and tgt.module.relpath.startswith(PKG) and tgt.name not in REMOVERS \
+                                and any(call_name(k) in REMOVERS for k in calls(tgt, nested=True)):
+                            only_via.append(c)
+                ctx.check(not only_via, "auth-failure-inert", fi, only_via[0] if only_via else h,
+                          f"handler `except {norm(h.type) if h.type is not None else ''}` that can receive CryptoException removes no entry",
+                          f"`except {norm(h.type) if h.type is not None else ''}` around `{norm(src[0])[:60]}` also receives CryptoException "
+                          f"(bases of CryptoException: {sorted(caught_names - {'BaseException'})}) and its handler removes a circuit/relay/exit entry: "
+                          f"a cell that FAILS authentication (bogus handshake authenticator / undecryptable cell, no keys needed) tears the entry down "
+                          f"instead of being dropped")
+    ctx.floor("auth-failure-inert", n, 3)
+
+
 def run(ctx: Ctx) -> None:
     rule_authenticated_accounting(ctx)
     rule_destroy(ctx)
     rule_no_overwrite(ctx)
     rule_data_origin(ctx)
     rule_return_path(ctx)
+    rule_removers(ctx)
+    rule_auth_failure_inert(ctx)
     ctx.assume("no shared mutable state between circuits besides the three routing tables and request caches (structural argument; interleavings not explored)")
     ctx.assume("collision of locally generated 32-bit ids with relay/exit ids is a 2^-32 event and not decided")
 
@@ -363,4 +627,13 @@ WITNESSES = [
     {"name": "unwrap takes circuit id from body", "file": "ipv8/messaging/anonymization/payload.py", "rule": "return-path-bound",
      "old": "                         pack(\"!I\", self.circuit_id),\n                         self.message[1:]])",
      "new": "                         self.message[1:5],\n                         self.message[5:]])"},
+    {"name": "handshake authentication failure tears the circuit down", "file": TC, "rule": "auth-failure-inert",
+     "old": "        except ValueError:\n            self.remove_circuit(circuit.circuit_id, \"error while verifying shared secret\")",
+     "new": "        except Exception:\n            self.remove_circuit(circuit.circuit_id, \"error while verifying shared secret\")"},
+    {"name": "create admission evicts an existing relay", "file": TC, "rule": "create-changes-nothing",
+     "old": "            self.logger.warning(\"Too many relays (%d)\", (len(self.relay_from_to) + len(self.exit_sockets)))\n            return False\n",
+     "new": "            self.logger.warning(\"Too many relays (%d)\", (len(self.relay_from_to) + len(self.exit_sockets)))\n            self.remove_relay(next(iter(self.relay_from_to)), \"make room\")\n"},
+    {"name": "ping handler removes an exit entry", "file": TC, "rule": "table-removers",
+     "old": "        exit_socket = self.exit_sockets.get(payload.circuit_id)\n        if exit_socket:\n            exit_socket.beat_heart()\n\n        self.send_cell(source_address, PongPayload",
+     "new": "        exit_socket = self.exit_sockets.get(payload.circuit_id)\n        if exit_socket:\n            exit_socket.beat_heart()\n        else:\n            self.remove_exit_socket(payload.identifier)\n\n        self.send_cell(source_address, PongPayload"},
 ]
